@@ -24,7 +24,7 @@ def run(tier, seed):
     jobs = [{'cases': [C.strip(c) for c in sh], 'seeds': 16 if th else 8, 'hist_len': 1000, 'group': 4, 'verif_seed': seed, '_bin': b} for sh in V.shard(cs, V.NCPU * 2)]
     events, meta = V.run_shards(None, 'c14', jobs, wd, 'c14', wall_timeout=7200)
     ver = V.Verdict('C14')
-    calls = pairs = hist = replayed = 0
+    calls = pairs = hist = replayed = concurrent = 0
     seen = set()
     ncase = 0
     for e in events:
@@ -34,6 +34,8 @@ def run(tier, seed):
             calls += e['calls']
             pairs += e['pairs']
             seen.add((e['case']['fam'], e['case']['ty']))
+        elif ev == 'concurrent':
+            concurrent += e['values_built_concurrently']
         elif ev == 'histories':
             hist += e['histories']
             replayed += e['replayed_calls']
@@ -51,7 +53,7 @@ def run(tier, seed):
         'rule': 'one evaluation = one sample() call that takes part in a comparison (same value twice, clone, rebuilt value, sample_iter, 8 threads vs single thread, call replayed alone from its recorded words); '
                 'distinct_nontrivial = distribution values (family x type x parameters) put through all comparisons',
         'samples': [{'history': 'objects %s share one recording RNG in random order for 1000 calls; a spread of <= 400 calls per history is replayed alone from its recorded word slice and must return the same bits and consume exactly those words' % [c['id'] for c in cs[:4]]}],
-        'paired_comparisons': pairs, 'interleaved_histories': hist, 'calls_replayed_out_of_history': replayed,
+        'paired_comparisons': pairs, 'values_built_concurrently_and_compared': concurrent, 'interleaved_histories': hist, 'calls_replayed_out_of_history': replayed,
         'family_type_pairs': len(seen), 'missing_pairs': sorted(expected - seen),
         'known_findings_hit': {k: v['n'] for k, v in ver.known_hits.items()},
     }
